@@ -902,6 +902,12 @@ QVALS = ['5" disk', 'a"b"c', 'a"b"c"d', '"', '""', '"' * 3, 'a\\b', '\\"x', 'a";
 FILENAMES = [None, 'hd.txt', 'my file.txt', 'ünï.txt', 'a;b=c.txt', '']
 EXTS = [None, ('UTF-8', '', '⬅ Arrow.txt'), ('utf-8', 'en', '£ rates'), ('ISO-8859-1', '', '£ rates'),
         ('UTF-8', 'en-GB', '£ and € rates')]
+# RFC 5987 ext-values: every attr-char that is not alphanumeric, kept literal by an encoder that follows the grammar, at the
+# start / in the middle / at the end of the name; characters that must be escaped ('%', "'", '*', ';', ',', '=', '"', space)
+EXT_SPECIALS = "!#$&+-.^_`|~"
+EXT_TEXTS = [t for c in EXT_SPECIALS for t in (c + 'a', 'a' + c + 'b', 'a' + c)] + [
+    EXT_SPECIALS, 'a' + EXT_SPECIALS + 'z.txt', '100% sure?.txt', "it's *.txt", 'a;b,c="d" e=f.txt', '€&£#$', 'r&d/q+a\\x|y.txt',
+    '%41', '%', "'", "''x", 'x']
 CTYPES = [None, 'text/plain', 'text/plain; charset=utf-8', 'text/plain; charset=latin-1', 'application/json',
           'application/octet-stream', 'image/png', 'application/x-www-form-urlencoded']
 STYLES = [{}, {'case': 'lower'}, {'case': 'upper', 'sep': ';'}, {'token': True}, {'ext_first': True, 'ctype_first': True},
@@ -1013,6 +1019,23 @@ def phase_meta(rec):
             p = Part(name, b'v', filename=fn, ext=ext, ctype=(None, 'image/png')[idx % 2], style=st)
             do_case(rec, make_case(b'ab', [p, Part('other', b'w', filename='t"1".bin')], [('data',), ('read_all',)], tag='MQ'))
             rec.count('cls.quoted_pair')
+    # RFC 5987 extended values: attr-chars literal / all escaped / lower-case hex / every byte escaped
+    for text in EXT_TEXTS:
+        for enc in ('attr', 'all', 'lower', 'full'):
+            for plain in (None, 'fallback.txt'):
+                idx += 1
+                if idx % rec.nshards != rec.shard:
+                    continue
+                k = idx // rec.nshards
+                charset = ('UTF-8', 'utf-8', 'ISO-8859-1')[k % 3]
+                try:
+                    text.encode(charset)
+                except UnicodeEncodeError:
+                    charset = 'UTF-8'
+                st = {'ext_enc': enc, 'ext_first': bool(k % 2), 'sep': ('; ', ';')[(k // 2) % 2], 'token': bool((k // 4) % 2)}
+                p = Part('up', b'v', filename=plain, ext=(charset, ('', 'en', 'de-CH')[(k // 3) % 3], text), style=st)
+                do_case(rec, make_case(b'ab', [p, Part('other', b'w')], [('data',), ('read_all',)], tag='MX'))
+                rec.count('cls.ext_value.' + enc)
     # get_media parts
     for i, (ct, content, _m) in enumerate(MEDIA_PARTS):
         if i % rec.nshards != rec.shard:
@@ -1352,12 +1375,18 @@ def rand_content(rng, b):
     return b'fallback'
 
 
+def _rand_ext(rng):
+    if rng.random() < 0.5:
+        return rng.choice(EXTS)
+    return (rng.choice(['UTF-8', 'utf-8']), rng.choice(['', 'en', 'pt-BR']), rng.choice(EXT_TEXTS))
+
+
 def rand_part(rng, b, j):
     if rng.random() < 0.12:
         ct, content, _m = rng.choice(MEDIA_PARTS)
         if M.content_legal(content, b):
             return Part('m%d' % j, content, ctype=ct, style=rng.choice(STYLES))
-    st = rng.choice(STYLES)
+    st = dict(rng.choice(STYLES), ext_enc=rng.choice(["attr", "attr", "all", "lower", "full"]))
     fn = rng.choice(FILENAMES)
     if st.get('token') and fn == '':
         fn = None
@@ -1377,7 +1406,7 @@ def rand_part(rng, b, j):
     if rng.random() < 0.1 and M.content_legal(rng.choice(TEXT_CONTENTS), b):
         content = rng.choice([c for c in TEXT_CONTENTS if M.content_legal(c, b)])
     return Part(name, content, filename=fn,
-                ext=rng.choice(EXTS) if rng.random() < 0.3 else None, ctype=ct, style=st)
+                ext=_rand_ext(rng) if rng.random() < 0.3 else None, ctype=ct, style=st)
 
 
 def rand_op(rng, p, b):
@@ -1551,7 +1580,7 @@ def floors(rec):
         ('cls.boundary_len.1', 100), ('cls.boundary_len.70', 100), ('cls.preamble', 100), ('cls.epilogue', 100),
         ('cls.no_final_crlf', 100), ('cls.parts.0', 8), ('cls.empty_content', 50), ('cls.content_delim_prefix', 500),
         ('cls.transport.1byte', 200), ('cls.transport.chunked', 500), ('cls.ics.small', 1000), ('cls.ics.default', 1000),
-        ('cls.body_spans_buffers.wsgi', 500), ('cls.body_spans_buffers.asgi', 200), ('cls.ext_filename', 100), ('cls.quoted_pair', 100),
+        ('cls.body_spans_buffers.wsgi', 500), ('cls.body_spans_buffers.asgi', 200), ('cls.ext_filename', 100), ('cls.quoted_pair', 100), ('cls.ext_value.attr', 40), ('cls.ext_value.all', 40), ('cls.ext_value.lower', 40), ('cls.ext_value.full', 40),
         ('cls.edit.sub', 300), ('cls.edit.del', 50), ('cls.edit.ins', 300), ('cls.edit.trunc', 50),
         ('mon.op.read', 200), ('mon.op.read_rest', 100), ('mon.op.read_all', 500), ('mon.op.loop', 100),
         ('mon.op.until', 100), ('mon.op.until_n', 50), ('mon.op.mix', 50), ('mon.op.data', 300), ('mon.op.text', 50), ('mon.op.media', 20), ('mon.op.iter', 20),
